@@ -13,7 +13,7 @@ ASSUMPTIONS = ['letters whose case mapping changes the length of the text (sharp
 
 ASCII = 'abcdefghijklmnopqrstuvwxyzABCDEFGHIJKLMNOPQRSTUVWXYZ0123456789 !#$%&()*+,-./:;<=>?@[\\]^_`{|}~\'"'
 CTRL = ''.join(chr(i) for i in range(1, 32))
-ACC = 'éàüñçöåøÉÀÜÑÇÖÅØ'
+ACC = 'éàüñçöåøÉÀÜÑÇÖÅØ\u00df\u03c2\u017f\ufb01\u0130'        # the last five: sharp s, final sigma, long s, the fi ligature, dotted capital I (case mappings that change length or differ from case folding)
 CJK = 'ㅍ日本語中文かな\U00020bb7\U0002a6a5'        # the last two are CJK Extension B ideographs (outside the BMP)
 ALPHA = ASCII + '   ' + CTRL + ACC + CJK
 
@@ -110,6 +110,30 @@ def ref_trim(s):
     return out
 
 
+def only_case_changed(s, g, fn):
+    """g is s with every character either kept or replaced by its Unicode case mapping of the right direction (which may be longer than one character:
+    sharp s -> SS, dotted capital I -> i + combining dot).  Case *folding* (sharp s -> ss under LOWER, final sigma -> sigma) is not a case mapping."""
+    def images(ch):
+        if not ch.isalpha():
+            return {ch}
+        if fn == 'UPPER':
+            return {ch, ch.upper()}
+        if fn == 'LOWER':
+            return {ch, ch.lower()}
+        return {ch, ch.upper(), ch.lower(), ch.title()}
+    reach = {0}
+    for ch in s:
+        nxt = set()
+        for pos in reach:
+            for im in images(ch):
+                if g.startswith(im, pos):
+                    nxt.add(pos + len(im))
+        reach = nxt
+        if not reach:
+            return False
+    return len(g) in reach
+
+
 def check_case_trim_clean(case):
     s = case['s']
     env = Env(vars={'v_s': s})
@@ -126,7 +150,7 @@ def check_case_trim_clean(case):
             raise Violation('%s is not idempotent on %r: %r then %r' % (fn, s, g, r2['error'] or r2['result']), enc(r2['result']), g)
     for fn in ('UPPER', 'LOWER', 'PROPER'):
         g = res[fn]
-        if len(g) != len(s) or any((a != b) and not (a.isalpha() and a.lower() == b.lower()) for a, b in zip(s, g)):
+        if not only_case_changed(s, g, fn):
             raise Violation('%s(%r) = %r changes more than letter case' % (fn, s, g), g, None)
     if any(ch.islower() for ch in res['UPPER']):
         raise Violation('UPPER(%r) = %r still has lower-case letters' % (s, res['UPPER']), res['UPPER'], s.upper())
@@ -148,6 +172,9 @@ def check_case_trim_clean(case):
 
 def ctc_key(c):
     s = c['s']
+    i = s.find('\u0130')
+    if i >= 0 and any(ch.isalpha() for ch in s[i + 1:]):
+        return 'letter-after-dotted-capital-I'      # known finding: PROPER is not idempotent there
     if s != s.strip(' ') and s.strip(' ') != s.strip():
         return 'edge-control-whitespace'
     if s.strip() != s.strip(' '):
